@@ -169,6 +169,10 @@ def matutil_lines(ctx, mats):
 
 
 def run(ctx):
+    import clilib
+    clilib.stream(ctx, "cliverdict", gen.cliverdict_lines(ctx.rng.fork("cliverdict"), 8, 3, 400 if ctx.quick else 8000, (-2, -1, 0, 1, 1, 2), 4, 4, 16, None),
+                  "cmr-k-ary: verdict line vs. the definition-level oracle on the matrix parsed from the input bytes",
+                  lambda c: gen.CLIVERDICT_CODES.get(c, str(c)))
     q = ctx.quick
     rng = ctx.rng.fork("text")
     wl = []
